@@ -44,3 +44,20 @@ Theorem C04_checker_accepts_every_model_run :
     check_C04 (model_case r stored local es) = [].
 Proof. intros r s l es. pose proof (checkers_accept_model r s l es) as H. cbv zeta in H. tauto. Qed.
 Print Assumptions C04_checker_accepts_every_model_run.
+
+(* the same clauses without the monitor: on every run of the model the reported states, up to
+   the first terminal outcome or the report of the connection's end, walk the SHIP state graph
+   (ConnMon.edge_ok, regenerated tables aside) from state 0 - every two consecutive distinct
+   reports are an edge - and once a terminal outcome was reported every further state is terminal *)
+From Ship Require Import ConnExplicit04.
+Theorem C04_reported_states_walk_the_graph :
+  forall (r : role) (stored local : bytes) (es : list eventx),
+    walk r 0 (model_trace r stored local es) = true.
+Proof. exact reported_states_walk_the_graph. Qed.
+Print Assumptions C04_reported_states_walk_the_graph.
+
+Theorem C04_only_terminal_states_after_a_terminal_outcome :
+  forall (r : role) (stored local : bytes) (es : list eventx),
+    settled 0 false (model_trace r stored local es) = true.
+Proof. exact only_terminal_states_after_a_terminal_outcome. Qed.
+Print Assumptions C04_only_terminal_states_after_a_terminal_outcome.
